@@ -304,6 +304,13 @@ fixed("C18", "C18:non-ascii-digits-taken-for-a-report", "0292b3b",
       [{"kind": "parse", "extra": "a\x1b[٣;٤R", "csi": "\x1b[", "row": 3, "col": 7, "trailing": "", "fail_at": [],
         "callback": True, "encoding": "utf-8"}])
 
+fixed("C10", "C10:combining-character-opening-a-run-at-a-slice-edge", "e5029ee",
+      "a combining character opening a run was lost when the run starts at the slice's end column (its base is the last "
+      "character of the slice) and kept when the run starts at the slice's first column (its base is outside)",
+      [{"op": "slice", "spec": [["a", RED], ["́b", {}]], "a": 0, "b": 1},
+       {"op": "slice", "spec": [["a", RED], ["́b", {}]], "a": 1, "b": 2},
+       {"op": "slice", "spec": [["Ｅ", RED], ["́", BLUE], ["b", {}]], "a": 0, "b": 2}])
+
 known("C03", "C03:prefix-then-undecodable-byte",
       "get_key raises UnicodeDecodeError for a table-sequence prefix (e.g. ESC) followed by a byte >= 0x80 "
       "that does not decode: ESC + any 8-bit byte under ascii, ESC + a UTF-8 lead/continuation byte under utf-8",
